@@ -406,6 +406,7 @@ class Slot:
         self.impl = impl
         self.ref = ref
         self.group = group
+        self.perm = None        # name of the last operation that re-ordered / rebuilt the block table of this tensor (statistics only)
 
 
 class Env:
@@ -874,6 +875,12 @@ def _align_other(A, B):
     return B, False
 
 
+# kinds of the 'add' operation with a fixed prefactor; the (i)binary_blockwise kinds (np.add / np.subtract, for which
+# func(0, 0) = 0 as the doc string requires) are only produced by the directed chains of ProgramRunner.gen_chain_step
+ADD_KINDS = {'add': 1, 'iadd': 1, 'sub': -1, 'isub': -1, 'binary_blockwise_add': 1, 'ibinary_blockwise_add': 1,
+             'binary_blockwise_sub': -1, 'ibinary_blockwise_sub': -1}
+
+
 @op('add', 5.0)
 class OpAdd:
     @staticmethod
@@ -912,12 +919,12 @@ class OpAdd:
                 not np.array_equal(A.qtotal, B.qtotal):
             raise ExpectError('ValueError')
         k = o['kind']
-        alpha = {'add': 1, 'iadd': 1, 'sub': -1, 'isub': -1}.get(k)
+        alpha = ADD_KINDS.get(k)
         if alpha is None:
             alpha = dec_scalar(o['alpha'])
         T = A.copy()
         T.dense = A.dense + alpha * B.dense
-        if k in ('add', 'sub'):
+        if k in ('add', 'sub', 'binary_blockwise_add', 'binary_blockwise_sub'):
             return {'new': [T], 'qtotal_rule': 'same'}
         env.slots[o['a']].ref = T
         return {'inplace': o['a'], 'qtotal_rule': 'same'}
@@ -930,10 +937,18 @@ class OpAdd:
             return {'new': [x + y]}
         if k == 'sub':
             return {'new': [x - y]}
+        if k == 'binary_blockwise_add':
+            return {'new': [x.binary_blockwise(np.add, y)]}
+        if k == 'binary_blockwise_sub':
+            return {'new': [x.binary_blockwise(np.subtract, y)]}
         if k == 'iadd':
             x += y
         elif k == 'isub':
             x -= y
+        elif k == 'ibinary_blockwise_add':
+            x.ibinary_blockwise(np.add, y)
+        elif k == 'ibinary_blockwise_sub':
+            x.ibinary_blockwise(np.subtract, y)
         else:
             x.iadd_prefactor_other(dec_scalar(o['alpha']), y)
         env.slots[o['a']].impl = x
@@ -2412,6 +2427,31 @@ def gen_chinfo(rng):
     return mods, names
 
 
+def gen_leg_rich(rng, mods, maxn=5):
+    """a LegCharge with several charge blocks (2-4) carrying at least two different charges, mostly unsorted: tensors over such
+    legs store several blocks in a pattern that is not symmetric under permutations of the legs"""
+    q = len(mods)
+    nb = rng.choice([2, 3, 3, 4])
+    sizes = [rng.choice([1, 1, 1, 2]) for _ in range(nb)]
+    while sum(sizes) > maxn:
+        sizes[sizes.index(max(sizes))] -= 1
+        if all(s_ <= 1 for s_ in sizes) and sum(sizes) > maxn:
+            sizes.pop()
+    nb = len(sizes)
+    pool = []
+    for _ in range(40):
+        c = [rng.randint(-1, 1) if m == 1 else rng.randrange(m) for m in mods]
+        if c not in pool:
+            pool.append(c)
+        if len(pool) >= rng.choice([2, 3, 3]):
+            break
+    charges = [pool[i % len(pool)] for i in range(nb)]      # every charge of the pool occurs when nb allows
+    rng.shuffle(charges)
+    if rng.random() < 0.2:
+        charges.sort(key=lambda c: tuple(c[::-1]))
+    return RLeg(np.concatenate([[0], np.cumsum(sizes)]).astype(int), np.array(charges, dtype=QT).reshape(nb, q), rng.choice([1, -1]), q)
+
+
 def gen_leg(rng, mods, maxn=5):
     """a LegCharge over `mods`: unsorted / duplicated / empty blocks on purpose"""
     q = len(mods)
@@ -2469,12 +2509,17 @@ class OpInit:
                 labels = [l if rng.random() < 0.5 else None for l in labels]
             elif pl < 0.4:
                 labels = [None] * len(legs)
+        return OpInit.gen_from(rng, env, legs, labels, qt)
+
+    @staticmethod
+    def gen_from(rng, env, legs, labels, qt):
+        """init operation for the given legs / labels / total charge: random values, per allowed block data / stored zeros / missing"""
         dtype = rng.choice(['float64', 'float64', 'complex128', 'int64'])
         T = RTensor(np.zeros([l.n for l in legs]), legs, labels, qt)
         allowed = allowed_mask(T, env.mods)
         vals = rand_values(rng, T.shape, dtype == 'complex128') * allowed
         decisions = {}
-        p_missing = rng.choice([0.0, 0.25, 0.25, 0.6])
+        p_missing = rng.choice([0.0, 0.0, 0.25, 0.25] if getattr(env, 'rich', False) else [0.0, 0.25, 0.25, 0.6])
         for c in block_combos(legs):
             tot = np.zeros(env.q, dtype=QT)
             for l, b in zip(legs, c):
@@ -2609,6 +2654,130 @@ def adopt_structure(T, x, q):
     return None
 
 
+# ---- directed chains: <operation that permutes the block table> ; <fresh partner> ; <binary operation on both> ----------
+
+def chain_partner(rng, env, xi, pd):
+    """init operation creating a partner for slot xi for the binary operation pd['mode']; records in pd what the binary step needs.
+    The partner has its own random pattern of stored / missing blocks (OpInit.gen_from)."""
+    X = env.slots[xi].ref
+    r = X.rank
+    mode = pd['mode']
+    if r == 0:
+        return None
+    if mode == 'add':
+        order = list(range(r))
+        if all(l is not None for l in X.labels) and r > 1 and rng.random() < 0.15:
+            rng.shuffle(order)          # same labels in another order: documented to be transposed first
+        legs = [X.legs[k].plain() for k in order]
+        labels = [X.labels[k] for k in order]
+        return OpInit.gen_from(rng, env, legs, labels, X.qtotal)
+    if mode == 'inner':
+        do_conj = rng.random() < 0.5
+        order = list(range(r))
+        if r > 1 and rng.random() < 0.3:
+            rng.shuffle(order)
+        if do_conj:
+            legs = [X.legs[k].plain() for k in order]
+            labels = [X.labels[k] for k in order]
+            qt = X.qtotal
+        else:
+            legs = [X.legs[k].conj().plain() for k in order]
+            labels = [lab_conj(X.labels[k]) for k in order]
+            qt = mv(env.mods, -X.qtotal)
+        pd['do_conj'], pd['order'] = do_conj, order
+        return OpInit.gen_from(rng, env, legs, labels, qt)
+    # tensordot: X as second operand more often (the compiled and the python worker only re-sort the first operand)
+    role = 'b' if rng.random() < 0.65 else 'a'
+    k = min(r, rng.choice([1, 1, 2, 2, 3]))
+    standard = rng.random() < 0.6
+    if standard:
+        S = list(range(k)) if role == 'b' else list(range(r - k, r))
+    else:
+        S = rng.sample(range(r), k)
+    contr = [X.legs[i].conj().plain() for i in S]
+    nextra_max = min(2, env.maxrank - (r - k))
+    extras = []
+    pool = [l for l in env.pool if 0 not in l.sizes()]      # size-0 charge blocks: tensordot raises / crashes (known finding)
+    for _ in range(rng.randint(0, max(0, nextra_max)) if pool else 0):
+        l = rng.choice(pool)
+        extras.append(l.conj() if rng.random() < 0.5 else l)
+    keep_size = int(np.prod([X.shape[i] for i in range(r) if i not in S] or [1]))
+    while extras and (keep_size * int(np.prod([max(1, l.n) for l in extras])) > MAXSIZE or
+                      int(np.prod([max(1, l.n) for l in contr + extras])) > 400):
+        extras.pop()
+    if int(np.prod([max(1, l.n) for l in contr])) > 400:
+        return None
+    if standard:
+        legs = extras + contr if role == 'b' else contr + extras
+        P = list(range(len(extras), len(extras) + k)) if role == 'b' else list(range(k))
+    else:
+        pos = list(range(k + len(extras)))
+        rng.shuffle(pos)
+        legs = [None] * len(pos)
+        for l, p_ in zip(contr + extras, pos):
+            legs[p_] = l
+        P = pos[:k]
+    qt = pick_qtotal(rng, env, legs)
+    labels = rng.sample(LABEL_POOL, len(legs))
+    if rng.random() < 0.2:
+        labels = [l if rng.random() < 0.5 else None for l in labels]
+    pd['role'], pd['S'], pd['P'], pd['standard'] = role, S, P, standard
+    return OpInit.gen_from(rng, env, legs, labels, qt)
+
+
+def chain_binary(rng, env, xi, pi, pd):
+    """the binary operation of a directed chain on slot xi (result of a permuting operation) and its partner pi"""
+    X, Pt = env.slots[xi].ref, env.slots[pi].ref
+    mode = pd['mode']
+    if mode == 'add':
+        a, b = (xi, pi) if rng.random() < 0.5 else (pi, xi)
+        kind = rng.choice(['add', 'sub', 'iadd', 'isub', 'iadd_prefactor_other', 'iadd_prefactor_other', 'binary_blockwise_add',
+                           'binary_blockwise_sub', 'ibinary_blockwise_add', 'ibinary_blockwise_sub'])
+        alpha = rng.choice([1, -1, 2, 2.0, -3, 1j, 1 - 1j]) if kind == 'iadd_prefactor_other' else None
+        o = {'op': 'add', 'a': a, 'b': b, 'kind': kind, 'alpha': None if alpha is None else enc_scalar(alpha)}
+        _, perm = _align_other(env.slots[a].ref, env.slots[b].ref)
+        if perm:
+            o['cond'] = 'labels-permuted'
+        return o
+    if mode == 'inner':
+        order = pd['order']             # partner leg j is leg order[j] of X
+        x_first = rng.random() < 0.5
+        if order == list(range(X.rank)) and rng.random() < 0.7:
+            axes = 'range'
+        else:
+            js = list(range(X.rank))
+            rng.shuffle(js)
+            ax_x = [axarg(rng, X, order[j]) for j in js]
+            ax_p = [axarg(rng, Pt, j) for j in js]
+            axes = [ax_x, ax_p] if x_first else [ax_p, ax_x]
+        return {'op': 'inner', 'a': xi if x_first else pi, 'b': pi if x_first else xi, 'axes': axes, 'do_conj': pd['do_conj']}
+    S, P, k = pd['S'], pd['P'], len(pd['S'])
+    if pd['standard'] and rng.random() < 0.5:
+        axes = k
+    elif pd['role'] == 'b':
+        axes = [[axarg(rng, Pt, p_) for p_ in P], [axarg(rng, X, i) for i in S]]
+    else:
+        axes = [[axarg(rng, X, i) for i in S], [axarg(rng, Pt, p_) for p_ in P]]
+    if pd['role'] == 'b':
+        return {'op': 'tensordot', 'a': pi, 'b': xi, 'axes': axes}
+    return {'op': 'tensordot', 'a': xi, 'b': pi, 'axes': axes}
+
+
+# operations that rebuild or re-order the block table (_qdata) of their result / in-place target: a later operation that trusts
+# a cached claim about that table (sorted flag) is only exercised when such a result is used again as an operand
+PERMUTING_OPS = ('iswapaxes', 'itranspose', 'transpose', 'permute', 'combine_legs', 'split_legs', 'iproject', 'sort_legcharge',
+                 'take_slice', 'getitem', 'as_completely_blocked', 'squeeze', 'add_leg', 'add_trivial_leg', 'extend',
+                 'gauge_total_charge', 'concatenate', 'grid_concat', 'grid_outer', 'setitem', 'trace', 'charges.drop_charge',
+                 'charges.change_charge', 'storage.ipurge_zeros', 'outer', 'tensordot')
+# operations whose result keeps the block table of operand `a` (the provenance tag is inherited)
+TABLE_KEEPING_OPS = ('conj', 'complex_conj', 'scale', 'scale_axis', 'storage', 'labels', 'norm')
+# the binary operations that merge / pair the block tables of two operands
+BINARY_OPS = ('add', 'inner', 'tensordot')
+# invariant violations that only concern cached claims (flags); the C01 observables of such an object can be all right
+FLAG_KINDS = frozenset(['qdata_sorted-false-claim', 'sorted-flag-false-claim', 'bunched-flag-false-claim', 'qdata-not-contiguous'])
+FLAG_ECHO = frozenset(['own-sanity-raises', 'leg-test_sanity', 'test_sanity:qdata_sorted-false-claim', 'test_sanity:qdata-not-contiguous'])
+
+
 class ProgramRunner:
     def __init__(self, prog, config):
         self.prog = prog
@@ -2616,6 +2785,7 @@ class ProgramRunner:
         self.rng = random.Random(prog['seed'])
         self.env = Env(prog['mods'], prog['names'], prog.get('maxrank', 4))
         self.env.config = config
+        self.env.rich = bool(prog.get('rich', False))
         npc = _npc()
         self.env.chinfo = npc.ChargeInfo(prog['mods'], prog['names'])
         self.env.pool = [leg_from_spec(sp, self.env.q) for sp in prog['pool']]
@@ -2629,6 +2799,16 @@ class ProgramRunner:
         self.evict_rng = random.Random(prog['seed'] ^ 0x5bd1e995)
         self.record_coq = prog.get('record_coq', 0)
         self.progress = None
+        # optional program keys (absent = behaviour of the earlier versions, so recorded programs replay unchanged):
+        #  keep_flagged: a tensor whose C01 observables are right but which carries a false cached claim (sorted flag ...) stays
+        #                alive, so that later steps show whether an operation trusting the claim computes a wrong dense result
+        #  p_chain:      probability that the result of a block-table-permuting operation is immediately used as an operand of a
+        #                binary operation (add / sub / (i)binary_blockwise / inner / tensordot) with a freshly created partner
+        self.keep_flagged = bool(prog.get('keep_flagged', False))
+        self.p_chain = float(prog.get('p_chain', 0.0))
+        self.chains_left = int(prog.get('max_chains', 3))
+        self.pending = None
+        self.result_slots = []
 
     # ---- bookkeeping
     def fail(self, prop, opname, cond, symptom, text):
@@ -2671,8 +2851,12 @@ class ProgramRunner:
 
     def compact(self):
         self.env.slots = [s for s in self.env.slots if s is not None]
+        keep = [] if self.pending is None else [self.pending.get('x'), self.pending.get('partner')]
         while len(self.env.slots) > self.max_slots:
-            self.env.slots.pop(self.evict_rng.randrange(len(self.env.slots)))
+            i = self.evict_rng.randrange(len(self.env.slots))
+            if any(self.env.slots[i] is k for k in keep):
+                continue
+            self.env.slots.pop(i)
 
     def struct_cond(self, o):
         """structural condition of the operands used in match keys: degenerate charge blocks"""
@@ -2701,6 +2885,15 @@ class ProgramRunner:
     def gen_step(self):
         env, rng = self.env, self.rng
         n_init = self.prog.get('n_init', 2)
+        if self.pending is not None:
+            o = None
+            try:
+                o = self.gen_chain_step()
+            finally:
+                if o is None:
+                    self.pending = None
+            if o is not None:
+                return o
         if len(self.ops) < n_init or not env.slots:
             like = None
             if env.slots and rng.random() < 0.5:
@@ -2739,6 +2932,9 @@ class ProgramRunner:
             if kinds <= {'qdata-not-contiguous', 'own-sanity-raises', 'test_sanity:qdata-not-contiguous'}:
                 x._qdata = np.ascontiguousarray(x._qdata)    # harmless for the semantics; keep exploring this history
                 return True
+            if self.keep_flagged and (kinds & FLAG_KINDS) and kinds <= (FLAG_KINDS | FLAG_ECHO):
+                self.stat('kept-with-false-flag')
+                return True
             return False
         return True
 
@@ -2762,6 +2958,9 @@ class ProgramRunner:
         if sc:
             self.stat('struct:' + sc)
         target = o.get('a') if not isinstance(o.get('a'), list) else None
+        self.result_slots = []
+        if o['op'] in BINARY_OPS and 'malformed' not in o:
+            self.chain_stats(o, opname)
         coq_before = None
         if self.record_coq and 'malformed' not in o and ((o['op'] in COQ_OPS and len(self.coq) < self.record_coq) or
                                                          (coq2_wanted(o) and len(self.coq2) < self.record_coq)):
@@ -2843,8 +3042,10 @@ class ProgramRunner:
                 msg = adopt_structure(s.ref, s.impl, env.q)
                 if msg:
                     self.evict(target)
-                elif np.any(s.ref.dense != 0):
-                    self.stat('nontrivial')
+                else:
+                    self.tag_result(s, opname, o, s)
+                    if np.any(s.ref.dense != 0):
+                        self.stat('nontrivial')
             self.coq_record(o, coq_before, s.impl if not bad and ok else None)
             self.check_others(target, opname, cond, inplace_data=not exp.get('labels_only'))
             return
@@ -2884,10 +3085,102 @@ class ProgramRunner:
                         if s is not None and s.group == g2:
                             s.group = group
             env.slots.append(Slot(r, T, group))
+            self.tag_result(env.slots[-1], opname, o, env.slots[target] if isinstance(target, int) and 0 <= target < len(env.slots) - 1 else None)
             appended += 1
             if np.any(T.dense != 0):
                 self.stat('nontrivial')
         self.check_others(None, opname, cond, newest=appended)
+
+    # ---- provenance of block tables, directed chains
+    def tag_result(self, slot, opname, o, src):
+        if opname in PERMUTING_OPS or o['op'] in PERMUTING_OPS:
+            slot.perm = opname
+        elif o['op'] in TABLE_KEEPING_OPS and opname != 'storage.isort_qdata':
+            slot.perm = src.perm if src is not None else None
+        else:
+            slot.perm = None
+        self.result_slots.append(slot)
+
+    def chain_stats(self, o, opname):
+        """statistics: how often is the result of a block-table-permuting operation an operand of a binary operation"""
+        env = self.env
+        a, b = o.get('a'), o.get('b')
+        if not (isinstance(a, int) and isinstance(b, int)) or a == b:
+            return
+        sa, sb = env.slots[a], env.slots[b]
+        if sa is None or sb is None:
+            return
+        tagged = [(s, t) for s, t in ((sa, sb), (sb, sa)) if s.perm is not None]
+        if not tagged:
+            return
+        self.stat('chain:permute-then-binary')
+        self.stat('chain-bin:' + opname)
+        strong = False
+        for s, t in tagged:
+            self.stat('chain-perm:' + s.perm)
+            try:
+                qa, qb = np.asarray(s.impl._qdata), np.asarray(t.impl._qdata)
+                if len(qa) >= 2 and not rows_sorted(qa) and not (qa.shape == qb.shape and np.array_equal(qa, qb)):
+                    strong = True
+            except Exception:
+                pass
+        if strong:
+            # the permuted operand stores >= 2 blocks in an order that is not lexsorted and the other operand has another block table
+            self.stat('chain:permute-then-binary:order-sensitive')
+
+    def slot_index(self, slot):
+        for i, s in enumerate(self.env.slots):
+            if s is slot and s is not None:
+                return i
+        return None
+
+    def gen_chain_step(self):
+        env, rng, pd = self.env, self.rng, self.pending
+        xi = self.slot_index(pd['x'])
+        if xi is None:
+            return None
+        if pd['stage'] == 0:
+            o = chain_partner(rng, env, xi, pd)
+            if o is None:
+                return None
+            pd['stage'], pd['partner'] = 1, None
+            return o
+        pi = self.slot_index(pd.get('partner'))
+        if pi is None:
+            return None
+        o = chain_binary(rng, env, xi, pi, pd)
+        self.pending = None
+        if o is not None:
+            self.stat('chain-directed:' + pd['mode'])
+        return o
+
+    def after_step(self, o):
+        """bookkeeping of directed chains (only while generating, never for recorded operation lists)"""
+        pd = self.pending
+        if pd is not None:
+            if pd['stage'] == 1 and pd.get('partner') is None:
+                if o.get('op') == 'init' and self.result_slots:
+                    pd['partner'] = self.result_slots[0]
+                else:
+                    self.pending = None
+            return
+        if self.p_chain <= 0 or self.chains_left <= 0 or 'malformed' in o or not self.result_slots:
+            return
+        x = self.result_slots[0]
+        if x.perm is None or self.slot_index(x) is None or x.ref.rank == 0:
+            return
+        if self.rng.random() >= self.p_chain * (0.35 if x.perm in ('tensordot', 'outer', 'grid_outer') else 1.0):
+            return
+        degenerate = any(0 in l.sizes() for l in x.ref.legs) or not small(x)
+        mode = 'add' if degenerate else self.rng.choices(['add', 'inner', 'tensordot'], [0.4, 0.2, 0.4])[0]
+        self.pending = {'stage': 0, 'x': x, 'mode': mode}
+        self.chains_left -= 1
+
+    def step_numbers(self, n, explicit):
+        k = 0
+        while k < n or (explicit is None and self.pending is not None and k < n + 8):
+            yield k
+            k += 1
 
     def check_others(self, target, opname, cond, unchanged_all=False, inplace_data=True, newest=0, skip=()):
         """every other live object: documented to be unchanged (dense of shallow-copy siblings of an in-place
@@ -2930,7 +3223,7 @@ class ProgramRunner:
     def run(self):
         explicit = self.prog.get('ops')
         n = len(explicit) if explicit is not None else self.prog['nsteps']
-        for k in range(n):
+        for k in self.step_numbers(n, explicit):
             self.step = k
             try:
                 o = explicit[k] if explicit is not None else self.gen_step()
@@ -2947,6 +3240,8 @@ class ProgramRunner:
             except Exception:
                 self.fails.append({'prop': 'runner', 'key': 'runner:step:' + o['op'], 'what': traceback.format_exc()[-1200:], 'step': k, 'config': self.config})
                 break
+            if explicit is None:
+                self.after_step(o)
             self.compact()
             if not self.env.slots and explicit is None and k >= self.prog.get('n_init', 2):
                 pass
@@ -2954,18 +3249,30 @@ class ProgramRunner:
                 'nsteps': len(self.ops)}
 
 
-def make_program(rng, tier='quick', record_coq=0):
-    """program header (charge structure, leg pool, length); the steps are generated while running"""
+def make_program(rng, tier='quick', record_coq=0, p_chain=0.0, keep_flagged=False, rich=False):
+    """program header (charge structure, leg pool, length); the steps are generated while running.
+    p_chain / keep_flagged: see ProgramRunner.__init__ (not drawn from rng; absent from the header when off);
+    rich: at least one charge, legs from gen_leg_rich, fewer missing blocks (tensors with several stored blocks)"""
     mods, names = gen_chinfo(rng)
+    while rich and not mods:
+        mods, names = gen_chinfo(rng)
     thorough = tier == 'thorough'
     maxrank = rng.choice([4, 4, 5, 6]) if thorough else 4
-    pool = [gen_leg(rng, mods, 3 if maxrank > 4 else 5) for _ in range(rng.choice([2, 3, 3, 4]))]
+    gl = gen_leg_rich if rich else gen_leg
+    pool = [gl(rng, mods, 3 if maxrank > 4 else 5) for _ in range(rng.choice([2, 3, 3, 4]))]
     if all(l.n == 0 for l in pool):
         pool.append(gen_leg(rng, mods, 4))
     n_init = rng.choice([1, 2, 2, 3])
     nsteps = n_init + (rng.randint(1, 12) if thorough else rng.randint(1, 6))
-    return {'seed': rng.randrange(1 << 30), 'mods': mods, 'names': names, 'maxrank': maxrank, 'pool': [l.spec() for l in pool],
+    prog = {'seed': rng.randrange(1 << 30), 'mods': mods, 'names': names, 'maxrank': maxrank, 'pool': [l.spec() for l in pool],
             'n_init': n_init, 'nsteps': nsteps, 'p_malformed': 0.1, 'record_coq': record_coq}
+    if p_chain:
+        prog['p_chain'] = p_chain
+    if keep_flagged:
+        prog['keep_flagged'] = True
+    if rich:
+        prog['rich'] = True
+    return prog
 
 
 # =========================================================================================
